@@ -89,7 +89,85 @@ def run(ctx):
         ctx.count('fill-random')
     for (case, il), mo in zip(pend, ctx.model.ask(lines)):
         ctx.compare('triu', case, mo, il)
+    extreme_stream(ctx)
     comm_stream(ctx)
+    pipeline_stream(ctx)
+
+
+def extreme_stream(ctx):
+    """'exactly' means bit for bit for EVERY representable entry: largest/smallest finite magnitudes, subnormals,
+    signed zeros, infinities — packing and unpacking only move entries, they never compute with them"""
+    from kfac.distributed import fill_triu, get_triu
+    rng = ctx.rng
+    for _ in range(ctx.budget(120, 1200)):
+        dtype = rng.choice([torch.float16, torch.bfloat16, torch.float32, torch.float64])
+        fi = torch.finfo(dtype)
+        pool = [fi.max, -fi.max, fi.max * 0.75, -fi.max * 0.625, fi.tiny, -fi.tiny, fi.tiny / 4, fi.eps, 0.0, -0.0,
+                1.0, -3.0, float('inf'), float('-inf')]
+        n = rng.randrange(1, 9)
+        v = torch.tensor([rng.choice(pool) for _ in range(n * (n + 1) // 2)], dtype=torch.float64).to(dtype)
+        case = {'n': n, 'dtype': str(dtype), 'packed': [float(x) for x in v.tolist()]}
+        try:
+            M = fill_triu((n, n), v)
+            back = get_triu(M)
+            M2 = fill_triu((n, n), get_triu(M))
+        except Exception as e:  # noqa: BLE001
+            ctx.fail(f'get_triu/fill_triu raised {type(e).__name__}: {e}', case, 'raised')
+            continue
+        bits = {torch.float16: torch.int16, torch.bfloat16: torch.int16, torch.float32: torch.int32, torch.float64: torch.int64}[dtype]
+        iu = torch.triu_indices(n, n)
+        ok = (M.dtype == dtype and torch.equal(back.view(bits), v.view(bits)) and torch.equal(M2.view(bits), M.view(bits))
+              and torch.equal(M[iu[0], iu[1]].view(bits), v.view(bits)) and torch.equal(M.t().contiguous().view(bits), M.contiguous().view(bits)))
+        if not ok:
+            ctx.fail('pack/unpack of extreme finite (or infinite / signed-zero) entries is not bit-exact', case, 'roundtrip-extreme')
+        ctx.evaluations += 1
+        ctx.case(('extreme', n, str(dtype), tuple(case['packed'][:5])), nontrivial=n >= 2)
+        ctx.count('extreme-' + str(dtype).split('.')[-1])
+
+
+def pipeline_stream(ctx):
+    """several symmetric tensors of the same size in flight at once through the bucketed path (no wait in between,
+    ranks progressing at different speeds, capacities for which a packed tensor sits alone in its bucket):
+    every result equals the dense allreduce"""
+    from kfac.distributed import TorchDistributedCommunicator
+    rng = ctx.rng
+    for trial in range(ctx.budget(30, 300)):
+        world = rng.choice([2, 2, 3, 4])
+        n = rng.choice([3, 5, 7])
+        dtype = rng.choice([torch.float32, torch.float64])
+        es = 4 if dtype == torch.float32 else 8
+        packed = n * (n + 1) // 2 * es
+        cap = rng.choice([packed, packed + es, 2 * packed - es, 2 * packed, 3 * packed + 1, packed // 2, 10**8])
+        count = rng.randrange(2, 6)
+        avg = rng.random() < 0.5
+        case = {'world': world, 'n': n, 'dtype': str(dtype), 'cap_bytes': cap, 'tensors': count, 'average': avg}
+
+        def prog(rank, n=n, dtype=dtype, cap=cap, count=count, avg=avg, world=world):
+            tdc = TorchDistributedCommunicator(bucket_cap_mb=(cap + 0.5) / 1e6)
+            assert tdc.bucket_cap_bytes == cap, tdc.bucket_cap_bytes
+            futs = []
+            for i in range(count):
+                t = (sym_matrix(n, dtype, 97) + i * 100) * (rank + 1) * world
+                futs.append(tdc.allreduce_bucketed(t, symmetric=True, average=avg))
+            tdc.flush_allreduce_buckets()
+            return [f.wait() if not isinstance(f, torch.Tensor) else f for f in futs]
+
+        wd, res = simdist.run_world(world, prog, seed=ctx.seed * 7717 + trial, stickiness=rng.choice([0.0, 0.5, 0.9]))
+        if wd.exceptions or wd.stalled or wd.errors:
+            ctx.fail(f'run failed: exc={wd.exceptions} stalled={wd.stalled} errors={wd.errors[:2]}', case, 'pipeline-run')
+            continue
+        tot = sum((r + 1) * world for r in range(world))
+        for i in range(count):
+            want = (sym_matrix(n, torch.float64, 97) + i * 100) * tot / (world if avg else 1)
+            for rank in range(world):
+                got = res[rank][i]
+                if tuple(got.shape) != (n, n) or got.dtype != dtype or not torch.equal(got.to(torch.float64), want):
+                    ctx.fail(f'tensor {i} on rank {rank}: the symmetric bucketed allreduce differs from the dense result',
+                             dict(case, schedule_seed=ctx.seed * 7717 + trial), 'pipeline-value')
+                    break
+        ctx.evaluations += 1
+        ctx.case(('pipeline', world, n, str(dtype), cap, count, avg), nontrivial=True)
+        ctx.count('pipeline-alone-in-bucket' if packed <= cap < 2 * packed else 'pipeline-other')
 
 
 def comm_stream(ctx):
